@@ -88,6 +88,13 @@ type Sealed struct {
 // with the standard library's HPKE. sender == nil: first hello (fresh context, enc sent);
 // otherwise a retried hello (same context, empty enc).
 func Seal(base *Hello, echPos int, key *KeyMat, suite Suite, pt []byte, sender *hpke.Sender, recVer uint16) *Sealed {
+	return SealAs(base, echPos, key, key.ID, suite, pt, sender, recVer)
+}
+
+// SealAs is Seal with the config_id field of the extension chosen freely: the payload is
+// authentically sealed to key (its public key, its config in the info string, the AAD of this very
+// hello), but the extension names configID.
+func SealAs(base *Hello, echPos int, key *KeyMat, configID uint8, suite Suite, pt []byte, sender *hpke.Sender, recVer uint16) *Sealed {
 	s := &Sealed{Key: key, Suite: suite, PT: pt}
 	kdf, err := hpke.NewKDF(suite.KDF)
 	if err != nil {
@@ -114,7 +121,7 @@ func Seal(base *Hello, echPos int, key *KeyMat, suite Suite, pt []byte, sender *
 	o.Exts = nil
 	echPos = min(echPos, len(base.Exts))
 	o.Exts = append(o.Exts, base.Exts[:echPos]...)
-	e := &ECHOuter{KDF: suite.KDF, AEAD: suite.AEAD, ConfigID: key.ID, Enc: s.Enc, Payload: make([]byte, len(pt)+16)}
+	e := &ECHOuter{KDF: suite.KDF, AEAD: suite.AEAD, ConfigID: configID, Enc: s.Enc, Payload: make([]byte, len(pt)+16)}
 	o.Exts = append(o.Exts, Ext{0xfe0d, e.Data()})
 	o.Exts = append(o.Exts, base.Exts[echPos:]...)
 	s.ECHIndex = echPos
